@@ -58,6 +58,11 @@ impl Value {
             return Ok(ValToUsize::NaN);
         };
 
+        if matches!(number, Number::Float(_)) {
+            // a float constant is not a valid index (and cannot be converted without rounding)
+            return Ok(ValToUsize::NaN);
+        }
+
         Ok(ValToUsize::Ok(number.try_into()?))
     }
 
